@@ -228,6 +228,22 @@ def check_ttnu(ctx, rng):
                 ctx.violation('C11/ttnu/zero-se', 't with zero standard '
                               'error is not (m1-m2)/1e-10', detail)
                 return
+    if ctx.driver_ok:
+        out = ctx.model('refmarkers.ttnu', {
+            'm1': jfrs(m1), 'v1': jfrs(v1), 'm2': jfrs(m2), 'v2': jfrs(v2),
+            'n1': n1, 'n2': n2})
+        for g in range(G):
+            t2, nu_m = out[g]
+            ok = nu_m is not None and close(
+                from_j(nu_m), fr(nu[g]), rel=Fraction(1, 10**9))
+            # the model's 1e-10 is the exact decimal, numpy's the float
+            ok = ok and close(from_j(t2), fr(tt[g]) ** 2,
+                              rel=Fraction(1, 10**6) if v1[g] == 0 == v2[g]
+                              else Fraction(1, 10**9))
+            if not ok:
+                corr_violation(ctx, 'ttnu', 'CTM.RefMarkers.welchTSq/welchNu '
+                               '~ _calculate_tt_nu', dict(detail, gene=g))
+                return
 
 
 # ---------------------------------------------------------------------------
@@ -1311,7 +1327,7 @@ def run(ctx):
     for _ in range(120 if quick else 1500):
         check_score_unit(ctx, rng)
     # ---- file layer --------------------------------------------------------
-    n_files = 24 if quick else 320
+    n_files = 24 if quick else 240
     for k in range(n_files):
         prob, cfg = gen_file_case(rng, ctx.tier)
         run_file_case(ctx, prob, cfg)
